@@ -515,3 +515,191 @@ def partial_(tier, seed, ci, nc):
 
 
 STREAMS['partial'] = partial_
+
+
+# ----------------------------------------------------------------------------- runtime properties
+def _objs():
+    out = []
+    i = 0
+    for d in (0, 1, 2, 3):
+        for u in (1, 2):
+            i += 1
+            out.append(('U', i, d, u))
+        i += 1
+        out.append(('S', i, d))
+    for d in (1, 2):
+        for u in (1, 2):
+            i += 1
+            out.append(('u', i, d, u))
+        i += 1
+        out.append(('p', i, d))
+    for k in range(9):
+        i += 1
+        out.append(('O', i))   # distinct menagerie objects
+    return out
+
+
+def eq(tier, seed, ci, nc):
+    objs = _objs()
+    # second objects carrying the same data under another identity
+    twins = [(o[0], o[1] + 100) + tuple(o[2:]) for o in objs if o[0] != 'O']
+
+    def gen():
+        for a in objs:
+            for b in objs + twins:
+                yield ('pyeq', a, b)
+                yield ('pyeq', b, a)
+                yield ('pyne', a, b)
+                yield ('hasheq', a, b)
+    return _slice(gen(), ci, nc)
+
+
+def cleanup(tier, seed, ci, nc):
+    vals = (None, 7)
+
+    def gen():
+        for iw in vals:
+            for is_ in (None, 8):
+                for cw in (None, 17):
+                    for cs in (None, 18):
+                        for fault in (None, 0, 1, 2, 3):
+                            yield ('cleanup', fault, iw, is_, cw, cs)
+    return _slice(gen(), ci, nc)
+
+
+def cache(tier, seed, ci, nc, maxlen=4, variants=('pok', 'pokpos', 'forger', 'deco')):
+    alphabet = ['get:0', 'get:1', 'call:0', 'call:1', 'dropw:0', 'dropw:1', 'dropi:0', 'dropi:1', 'gc']
+    rng = _rng(seed, 'cache', ci)
+
+    def gen():
+        for variant in variants:
+            for L in range(0, maxlen + 1):
+                for ops in itertools.product(alphabet, repeat=L):
+                    yield ('cache', variant, ('new:0', 'new:1') + ops)
+    it = _slice(gen(), ci, nc)
+    for r in it:
+        yield r
+    # seeded longer histories
+    for _ in range((2000 if tier == 'quick' else 40000) // nc):
+        L = rng.randint(maxlen + 1, maxlen + (2 if tier == 'quick' else 4))
+        yield ('cache', rng.choice(variants), ('new:0', 'new:1') + tuple(rng.choice(alphabet) for _ in range(L)))
+
+
+STREAMS.update({'eq': eq, 'cleanup': cleanup, 'cache': cache})
+
+
+def sigcmp(tier, seed, ci, nc):
+    univ = U('abc', 2) if tier == 'quick' else U('abc', 3)
+    return _slice((('rt:sigcmp', ps) for ps in univ), ci, nc)
+
+
+STREAMS['sigcmp'] = sigcmp
+
+
+def _preempt_schedules(n, steps, max_preempt):
+    """line-granularity schedules with at most `max_preempt` preemptions: thread order x switch points.
+    A schedule is a list of thread indices; `steps` bounds the number of traced lines of one thread."""
+    out = []
+    for order in itertools.permutations(range(n)):
+        # no preemption: each thread runs to completion in turn
+        out.append(sum(([t] * steps for t in order), []))
+        if max_preempt >= 1:
+            for a in range(1, steps):
+                for second in range(n):
+                    if second == order[0]:
+                        continue
+                    # first thread runs a lines, is preempted by `second` which completes, then the rest
+                    rest = [t for t in order if t != second]
+                    out.append([order[0]] * a + [second] * steps + sum(([t] * steps for t in rest), []))
+        if max_preempt >= 2:
+            for a in range(1, steps, 2):
+                for b in range(1, steps, 2):
+                    for second in range(n):
+                        if second == order[0]:
+                            continue
+                        rest = [t for t in order if t != second]
+                        out.append([order[0]] * a + [second] * b + sum(([t] * steps for t in rest), []) + [second] * steps)
+    return out
+
+
+def sched(tier, seed, ci, nc):
+    """real threads running cleanup_functools_wrapper on one shared function, stepped line by line"""
+    steps = 26
+    def gen():
+        for iw in (7, None):
+            for s in _preempt_schedules(2, steps, 2):
+                yield ('sched', 2, iw, tuple(s))
+            if tier != 'quick':
+                for s in _preempt_schedules(3, steps, 2):
+                    yield ('sched', 3, iw, tuple(s))
+            else:
+                rng = _rng(seed, 'sched', 0)
+                s3 = _preempt_schedules(3, steps, 2)
+                for s in rng.sample(s3, min(300, len(s3))):
+                    yield ('sched', 3, iw, tuple(s))
+    return _slice(gen(), ci, nc)
+
+
+STREAMS['sched'] = sched
+
+
+def faults(tier, seed, ci, nc):
+    from . import scenarios
+    names = sorted(scenarios.make())
+    excs = ('runtime', 'value') if tier == 'quick' else ('runtime', 'value', 'type', 'attr', 'kbd')
+
+    def gen():
+        for n in names:
+            for e in excs:
+                for how in ('sigtools', 'noauto', 'inspect'):
+                    yield ('rt:faults', n, e, how)
+    return _slice(gen(), ci, nc)
+
+
+def threads_rt(tier, seed, ci, nc):
+    def gen():
+        yield ('rt:asforged_threads', 'inspect')
+        yield ('rt:asforged_threads', 'sigtools')
+        yield ('rt:window',)
+        for k in range(2 if tier == 'quick' else 12):
+            yield ('rt:stress', seed * 100 + k, 300 if tier == 'quick' else 1500, 4 if tier == 'quick' else 6)
+    return _slice(gen(), ci, nc)
+
+
+STREAMS.update({'faults': faults, 'threads_rt': threads_rt})
+
+
+def modorder(tier, seed, ci, nc):
+    univ = [s for s in (U('abc', 3)) if sum(1 for p in s if p[1] == 'pk') >= 2]
+    rng = _rng(seed, 'modorder', 0)
+    if tier == 'quick':
+        univ = rng.sample(univ, 120)
+
+    def gen():
+        for ps in univ:
+            ps = _dist_defaults(ps)
+            pk = [p[0] for p in ps if p[1] == 'pk']
+            for npo in range(0, len(pk)):
+                Pn = tuple(pk[:npo])
+                rest = pk[npo:]
+                for r in range(0, min(2, len(rest)) + 1):
+                    for Wn in itertools.combinations(rest, r):
+                        for ann in (None, pk[0]):
+                            if not (Pn or Wn):
+                                continue
+                            yield ('rt:modorder', ps, Pn, Wn, ann)
+    return _slice(gen(), ci, nc)
+
+
+STREAMS['modorder'] = modorder
+
+
+def alias(tier, seed, ci, nc, count=6000):
+    gens = [merge_rand(tier, seed, ci, nc, count=count // 3), embed_rand(tier, seed, ci, nc, count=count // 3),
+            forwards_rand(tier, seed, ci, nc, count=count // 6), maskflags(tier, seed, ci, nc, count=count // 6)]
+    for g in gens:
+        for r in g:
+            yield ('rt:alias', r)
+
+
+STREAMS['alias'] = alias
